@@ -1662,3 +1662,63 @@ Lemma Forall_wfb : forall (V : Type) (RES : list (string * string)) (rs : list (
 Proof.
   intros V RES rs H. rewrite forallb_forall in H. rewrite Forall_forall. intros r Hr. apply wfb_wf. apply H. exact Hr.
 Qed.
+
+(* ---------------------------------------------------------------------------------------------- *)
+(* memoisation keyed by the definition is transparent                                              *)
+Section CacheProofs.
+Context {K R : Type}.
+Variable keq : K -> K -> bool.
+Variable f : K -> R.
+Hypothesis keq_eq : forall a b, keq a b = true -> a = b.
+
+Definition cache_sound (c : list (K * R)) : Prop := forall e, In e c -> snd e = f (fst e).
+
+Lemma cache_find_sound : forall c k v, cache_sound c -> cache_find keq k c = Some v -> v = f k.
+Proof.
+  induction c as [|e c IH]; simpl; intros k v Hs H; [discriminate|].
+  destruct (keq k (fst e)) eqn:E.
+  - inversion H. subst v. rewrite (keq_eq _ _ E). apply Hs. left. reflexivity.
+  - apply IH; [|exact H]. intros x Hx. apply Hs. right. exact Hx.
+Qed.
+
+Lemma run_cached_transparent : forall ks c, cache_sound c -> run_cached keq f c ks = map f ks.
+Proof.
+  induction ks as [|k ks IH]; intros c Hs; simpl; [reflexivity|].
+  destruct (cache_find keq k c) as [v|] eqn:E.
+  - rewrite (cache_find_sound c k v Hs E). f_equal. apply IH. exact Hs.
+  - f_equal. apply IH. intros e [He|He]; [subst e; reflexivity|apply Hs; exact He].
+Qed.
+End CacheProofs.
+
+Lemma desc_eqb_eq : forall a b, desc_eqb a b = true -> a = b.
+Proof.
+  unfold desc_eqb. induction a as [|e a IH]; intros b H; destruct b as [|g b]; try discriminate; [reflexivity|].
+  apply andb_prop in H. destruct H as [H12 H3]. apply andb_prop in H12. destruct H12 as [H1 H2].
+  apply String.eqb_eq in H1, H2. destruct e, g. simpl in *. subst. f_equal. apply IH. exact H3.
+Qed.
+
+Lemma dkeys_eqb_eq : forall a b, dkeys_eqb true a b = true -> a = b.
+Proof.
+  induction a as [|x a IH]; intros b H; destruct b as [|y b]; simpl in H; try discriminate; [reflexivity|].
+  apply andb_prop in H. destruct H as [H1 H2]. unfold dkey_eqb in H1. apply andb_prop in H1. destruct H1 as [Hn Hf].
+  apply String.eqb_eq in Hn. apply desc_eqb_eq in Hf. destruct x, y. simpl in *. subst. f_equal. apply IH. exact H2.
+Qed.
+
+Lemma mkey_eqb_eq : forall a b, mkey_eqb true a b = true -> a = b.
+Proof.
+  intros [da [ra na]] [db [rb nb]] H. unfold mkey_eqb in H. simpl in H.
+  apply andb_prop in H. destruct H as [H12 H3]. apply andb_prop in H12. destruct H12 as [H1 H2].
+  apply dkeys_eqb_eq in H1. apply Bool.eqb_prop in H2. subst.
+  destruct na as [x|]; destruct nb as [y|]; try discriminate; [|reflexivity].
+  apply String.eqb_eq in H3. subst. reflexivity.
+Qed.
+
+(* any sequence of calls of a function memoised on (descriptors, replace, name) returns what the function returns,
+   provided descriptor equality is structural *)
+Theorem merge_cache_transparent : forall (structural : bool) (R : Type) (f : mkey -> R) (ks : list mkey),
+  structural = true -> run_cached (mkey_eqb structural) f [] ks = map f ks.
+Proof.
+  intros structural R f ks H. subst structural. apply run_cached_transparent.
+  - exact mkey_eqb_eq.
+  - intros e [].
+Qed.
